@@ -81,7 +81,7 @@ PROPS["C11"] = {
     "quick": {"shards": 8, "budget_s": 20, "max_restarts": 30},
     "thorough": {"shards": 16, "budget_s": 300, "max_restarts": 60},
     "floor": {"quick": 3000, "thorough": 50000},
-    "require_counters": {"quick": {"decoded_ok": 3000, "validated_ok": 500, "emitted_containers_ok": 4, "emitted_corpus_programs_ok": 250},
+    "require_counters": {"quick": {"decoded_ok": 3000, "validated_ok": 500, "emitted_containers_ok": 4, "emitted_corpus_programs_ok": 150},
                          "thorough": {"decoded_ok": 50000, "validated_ok": 5000}},
     "rule": "seed containers = compiler output for 4 embedded programs (tasks, FBs, structs, enums, OOP, I/O). Mutants: every 4-byte-aligned "
             "offset x 8 hostile u32 values with the CRC recomputed (systematic for containers <= 3000 B; all seeds in thorough), truncation at "
@@ -175,7 +175,7 @@ PROPS["C18"] = {
     "technique": "credential x request-type x configuration enumeration against a real ControlServer on a unix socket with an effect observer (before/after diff of debugger state, probe-runtime variables and I/O, resource commands and state, settings, tokens, pairing data, project files)",
     "quick": {"shards": 8, "budget_s": 25, "watchdog_s": 400},
     "thorough": {"shards": 16, "budget_s": 600, "watchdog_s": 3000},
-    "floor": {"quick": 3000, "thorough": 12000},
+    "floor": {"quick": 2000, "thorough": 10000},
     "require_counters": {"quick": {"replies_checked": 3000, "requests_with_effect": 150, "requests_refused": 1000, "malformed_lines_survived": 19},
                          "thorough": {"replies_checked": 12000}},
     "rule": "request types are scraped at check time from the working tree (match arms of control/handlers/*.rs plus the literals of the role table and the debug-class "
@@ -334,8 +334,8 @@ PROPS["C13"] = {
     "technique": "incremental-vs-fresh differential monitor over the public trust_hir::Database API after edit/remove/re-add/query histories, with idempotence checks, salsa memoisation counters as non-triviality witness and a concurrent reader variant",
     "quick": {"shards": 8, "budget_s": 25, "watchdog_s": 900},
     "thorough": {"shards": 16, "budget_s": 420, "watchdog_s": 3600},
-    "floor": {"quick": 300, "thorough": 10000},
-    "require_counters": {"quick": {"answers_compared": 2000000, "salsa_cache_hits": 5000, "salsa_recomputes": 20000, "histories_with_concurrent_reader": 50}, "thorough": {"answers_compared": 100000000}},
+    "floor": {"quick": 300, "thorough": 5000},
+    "require_counters": {"quick": {"answers_compared": 2000000, "salsa_cache_hits": 5000, "salsa_recomputes": 20000, "histories_with_concurrent_reader": 50}, "thorough": {"answers_compared": 50000000}},
     "rule": "1-5 files with cross-file references (functions, FB types, struct/enum types, configuration globals, a namespace); per file a pool of 6-7 texts (valid, changed signature, renamed symbol, "
             "syntax error, empty, duplicate declaration) plus token-level mutants; histories of 5-60 ops {set, remove, re-add, query(kind,file)} with queries in random order so different memo sets "
             "exist before each edit; 20% of histories run with a reader thread querying through an RwLock while the edits are applied. distinct = the history; non-trivial = the salsa counters show "
@@ -355,8 +355,8 @@ PROPS["C14"] = {
     "technique": "two real trust-lsp processes over stdio (one fed the change notifications, one fed the final text) + a UTF-16 editor buffer model: answer equality, position validity on the editor's text, prepareRename round trips",
     "quick": {"shards": 8, "budget_s": 30, "watchdog_s": 900},
     "thorough": {"shards": 16, "budget_s": 420, "watchdog_s": 3600},
-    "floor": {"quick": 150, "thorough": 5000},
-    "require_counters": {"quick": {"answers_compared": 1500, "positions_validated_on_editor_text": 8000, "prepare_rename_round_trips": 1500, "histories_editing_after_non_ascii": 100}, "thorough": {"answers_compared": 50000}},
+    "floor": {"quick": 150, "thorough": 1200},
+    "require_counters": {"quick": {"answers_compared": 1500, "positions_validated_on_editor_text": 8000, "prepare_rename_round_trips": 1500, "histories_editing_after_non_ascii": 100}, "thorough": {"answers_compared": 10000}},
     "rule": "initial texts: 5 base programs (incl. a CRLF one) salted with Latin-1, CJK, BMP symbols and astral emoji in comments, pragmas and strings placed *before* code on the same line; 1-30 "
             "didChange notifications of 1-3 incremental changes each (insert/delete/replace on valid UTF-16 boundaries, biased to positions right after a wide character, CRLF inserts, occasional "
             "full-text change). distinct = the history; non-trivial = >= 1 incremental change on a line whose prefix is non-ASCII, or >= 3 changes",
@@ -375,8 +375,8 @@ PROPS["C15"] = {
     "technique": "token-sequence oracle (trust_syntax::lex before/after) over edits returned by the real trust-lsp binary for full, range and on-type formatting under random configurations, applied with a UTF-16 editor model; same oracle on the web IDE formatter",
     "quick": {"shards": 8, "budget_s": 30, "watchdog_s": 900},
     "thorough": {"shards": 16, "budget_s": 420, "watchdog_s": 3600},
-    "floor": {"quick": 100, "thorough": 3000},
-    "require_counters": {"quick": {"full_formats_checked": 100, "range_formats_checked": 300, "ontype_formats_checked": 300, "webide_formats_checked": 100}, "thorough": {"full_formats_checked": 3000}},
+    "floor": {"quick": 100, "thorough": 1200},
+    "require_counters": {"quick": {"full_formats_checked": 100, "range_formats_checked": 300, "ontype_formats_checked": 300, "webide_formats_checked": 100}, "thorough": {"full_formats_checked": 1200}},
     "rule": "texts: 12 built-in programs (all statement kinds, CRLF, comments/pragmas/strings mixed on one line, long lines, syntax errors), token-level mutants of them, every .st file < 6 kB under "
             "/repo and mutants of those, and the adjacent-token gluing matrix (39 x 39 token pairs, spaced and unspaced; cells are consumed round-robin, thorough completes it). configs: random subsets "
             "of indentWidth {1,2,4,8}, insertSpaces, keywordCase, alignVarDecls, alignAssignments, maxLineLength {10,20,40,80,120}, spacingStyle, endKeywordStyle via didChangeConfiguration + "
@@ -396,7 +396,7 @@ PROPS["C16"] = {
     "quick": {"shards": 8, "budget_s": 30, "watchdog_s": 900},
     "thorough": {"shards": 16, "budget_s": 420, "watchdog_s": 3600},
     "floor": {"quick": 2000, "thorough": 50000},
-    "require_counters": {"quick": {"rename_trials": 20000, "renames_applied": 5000, "rename_back_round_trips": 5000, "behaviour_runs_compared": 1000, "bindings_compared": 20000}, "thorough": {"rename_trials": 500000}},
+    "require_counters": {"quick": {"rename_trials": 12000, "renames_applied": 4000, "rename_back_round_trips": 5000, "behaviour_runs_compared": 1000, "bindings_compared": 20000}, "thorough": {"rename_trials": 500000}},
     "rule": "two-file projects (function, FB with inputs/outputs/locals, struct type, program with FB instance / struct / externals, configuration with a global and a program instance); suite `unique`: "
             "every identifier declared once; suite `shared`: identifiers drawn from a 14-name pool so equal names live in several scopes. Rename position = every identifier token of both files; new "
             "name in {fresh, every other identifier of the project, upper-case variant, IF, END_VAR, DINT, `1abc`, `a b`, empty}; quick samples a third of the (position, name) pairs, thorough all. "
@@ -419,7 +419,7 @@ PROPS["C17"] = {
     "thorough": {"shards": 16, "budget_s": 600, "watchdog_s": 3000},
     "floor": {"quick": 3000, "thorough": 100000},
     "require_counters": {"quick": {"stops": 10000, "resume_actions_while_stopped": 10000, "step_semantics_checked": 1000, "cycles_compared_with_undebugged_run": 10000, "trace_events_checked": 1000000,
-                                   "dap_sessions": 60, "dap_stopped_events": 400, "dap_blocked_states_announced": 150, "dap_stop_locations_compared": 150, "dap_final_pause_stops": 60},
+                                   "dap_sessions": 40, "dap_stopped_events": 250, "dap_blocked_states_announced": 100, "dap_stop_locations_compared": 100, "dap_final_pause_stops": 40},
                          "thorough": {"stops": 1000000, "step_semantics_checked": 100000}},
     "rule": "program with a 4-deep call chain (PROGRAM -> FB -> FUNCTION with FOR loop -> FUNCTION), a WHILE loop, two cyclic tasks sharing a global and a background program, run for 2-12 cycles; "
             "scripts of 5-200 commands from {Pause, Continue, StepIn, StepOver, StepOut (each with and without a thread id 1..3), set 1-3 breakpoints at statement locations, clear breakpoints, "
